@@ -5,18 +5,18 @@ ROOT = os.path.dirname(os.path.abspath(__file__))
 
 # id -> (built, technique, level text, level note, design ref)
 T = {
- 'C01': (False, 'exhaustive enumeration + rapid generation of single instructions against a reference SM83 interpreter', '', '', '§5 C01'),
- 'C02': (False, 'enumeration of opcode x flag nibble and rapid programs against a reference cycle table', '', '', '§5 C02'),
- 'C03': (False, 'one-hot marker differential per machine cycle against a reference access schedule', '', '', '§5 C03'),
- 'C04': (False, 'exhaustive IE x IF x IME enumeration + rapid interrupt programs in lock-step with a reference model', '', '', '§5 C04'),
- 'C05': (False, 'enumeration of HALT contexts x following opcode x idle length against a reference model', '', '', '§5 C05'),
+ 'C01': (True, 'exhaustive enumeration + rapid generation of single instructions against a reference SM83 interpreter', "All 8-bit ALU, CB, INC/DEC, accumulator/flag (incl. DAA), POP AF, 16-bit INC/DEC and (thorough) all 2^24 ADD SP,e / LD HL,SP+e input combinations are enumerated completely against an independent x/y/z-decoded reference interpreter; every other opcode is exercised with hundreds of thousands of rapid-generated register/flag/memory states with structured pointers, with a whole-memory shadow comparison for 'changes nothing else'.", "refcpu (the reference interpreter) is trusted; it was written from the opcode documentation in a different decomposition from tetromino's closure tables and agrees with the repository's daa.csv on all 2048 rows. Operands are restricted to plain memory (I/O semantics are other properties).", '§5 C01'),
+ 'C02': (True, 'enumeration of opcode x flag nibble and rapid programs against a reference cycle table', 'Every defined opcode x all 16 flag nibbles (both outcomes of every condition) x 64-1024 random states is timed between instruction boundaries against the reference cycle table; tens of thousands of generated programs are run in lock-step comparing the cycle count of every instruction; plus the blargg instr_timing verdict.', 'The cycle table in refcpu is typed in from the SM83 timing reference; STOP and HALT have no fixed length and are excluded.', '§5 C02'),
+ 'C03': (True, 'one-hot marker differential per machine cycle against a reference access schedule', 'For each of the 99 opcodes with a data access, rapid draws operand addresses/registers and a marker byte; one run per candidate machine cycle with one-hot operand values identifies the cycle of every read, per-cycle snapshots identify the cycle of every write; plus blargg mem_timing and mem_timing-2 verdicts.', "Immediate-operand fetch cycles are not asserted (the property is about data accesses); documented access cycles come from refcpu's access schedule.", '§5 C03'),
+ 'C04': (True, 'exhaustive IE x IF x IME enumeration + rapid interrupt programs in lock-step with a reference model', 'All 256 IE x 32 IF x 2 IME combinations at a boundary x 7 following instruction kinds are enumerated, and tens of thousands of generated EI/DI/RETI/IF/IE programs with requests raised at arbitrary machine cycles run in lock-step with a reference that models IME, the EI delay, priority, the 5-cycle dispatch, pushed address and IF clearing; plus 8 interrupt ROM verdicts.', "Where a higher-priority request arrives during the 5 dispatch cycles either choice of vector is accepted; instruction semantics are re-synchronised rather than judged (C01's business).", '§5 C04'),
+ 'C05': (True, 'enumeration of HALT contexts x following opcode x idle length against a reference model', 'HALT under IME {0,1} x request pending / arriving after up to K idle cycles x 5 sources x every defined opcode as the following instruction is enumerated; the halt bug is judged metamorphically (the implementation executing the duplicated byte from PC-1 must agree with its halt-bug run); generated programs mix HALT with EI/DI/IF writes and requests; plus 4 halt ROM verdicts.', 'Wake-up latency with IME=0 is accepted up to 2 cycles; how a CB prefix decodes under the halt bug is not asserted.', '§5 C05'),
  'C06': (False, 'rapid stateful read/write sequences + exhaustive single-write sweep against a reference address map', '', '', '§5 C06'),
  'C07': (False, 'frame-condition differential: full 64K snapshot before/after a generated write vs allowed-effect table', '', '', '§5 C07'),
  'C08': (False, 'exhaustive single writes / MBC1 register triples + rapid stateful sequences vs reference bank controllers with page signatures', '', '', '§5 C08'),
  'C09': (False, 'rapid stateful sequences against a reference cartridge-RAM cell store', '', '', '§5 C09'),
  'C10': (False, 'exhaustive one-step carry chain + rapid stateful histories against a reference RTC', '', '', '§5 C10'),
  'C11': (False, 'robustness fuzzing: rapid + native go fuzz of ROM images, exhaustive single writes, rapid programs; oracle = no panic after construction', '', '', '§5 C11'),
- 'C12': (False, 'bounded-exhaustive operation sequences + rapid long schedules against a reference timer with don\'t-care sets', '', '', '§5 C12'),
+ 'C12': (True, 'bounded-exhaustive operation sequences + rapid long schedules against a reference timer with don\'t-care sets', "Every sequence of 4 (thorough 5) machine cycles over 17 per-cycle write symbols from several hundred start states around each selected counter bit's edge and counter wrap is enumerated on a bare timer, and long rapid schedules run on a bare timer and through the address decoder + frame-loop wiring, compared after every write and tick with a candidate-set reference (DIV, TIMA, TMA, TAC, interrupt count).", "At most one write per machine cycle (as a CPU can issue); hidden edges within a cycle, increments coinciding with a reload/TIMA write and interrupts of cancelled overflows are don't-cares. The TLA+ model check mentioned in the quantifier is a different technique and is not done.", '§5 C12'),
  'C13': (False, 'rapid LCD on/off schedules compared cycle by cycle with a reference line/mode counter', '', '', '§5 C13'),
  'C14': (False, 'enumeration of STAT source x LYC + rapid schedules against reference request events', '', '', '§5 C14'),
  'C15': (False, 'rapid scenes against a reference renderer, pixel-exact', '', '', '§5 C15'),
